@@ -1,3 +1,4 @@
+#define _GNU_SOURCE
 /* C18 harness: the real hex.c (included, so the static inline hexchar()/nibble() are reachable; no hook in /repo).
  * Byte strings travel as lower-case hex pairs, "-" = empty.  Every string handed to hex_get_byte lives in an
  * exactly-sized heap block (len + 1 bytes) so that ASan sees a one-byte over-read.
@@ -93,6 +94,28 @@ static void parse_line(const char *text, size_t len, int again)
 	printf("\n");
 }
 
+/* block-history mode dumps into a stream that was used before: every write succeeds, but an earlier, unrelated failed
+ * read has left the stream's (sticky) error indicator set */
+struct ubuf { char **p; size_t *n; };
+static ssize_t ub_write(void *c, const char *b, size_t k)
+{
+	struct ubuf *u = c;
+	*u->p = realloc(*u->p, *u->n + k + 1);
+	memcpy(*u->p + *u->n, b, k); *u->n += k; (*u->p)[*u->n] = 0;
+	return (ssize_t)k;
+}
+static ssize_t ub_read(void *c, char *b, size_t k) { (void)c; (void)b; (void)k; return -1; }
+static int ub_close(void *c) { free(c); return 0; }
+static FILE *used_stream(char **txt, size_t *tl)
+{
+	struct ubuf *u = malloc(sizeof *u);
+	cookie_io_functions_t io = { ub_read, ub_write, NULL, ub_close };
+	u->p = txt; u->n = tl; *txt = calloc(1, 1); *tl = 0;
+	FILE *f = fopencookie(u, "w+", io);
+	(void)fgetc(f);                 /* fails: error indicator set */
+	return f;
+}
+
 int main(void)
 {
 	static char line[1 << 20], op[32], arg[1 << 20];
@@ -126,7 +149,7 @@ int main(void)
 			unsigned char *raw = decode(arg, &len);
 			unsigned char *fresh = NULL, *bytes; /* exactly sized / right-aligned: an over-read of the array is seen */
 			char *txt = NULL;
-			FILE *f = open_memstream(&txt, &tl);
+			FILE *f = blk ? used_stream(&txt, &tl) : open_memstream(&txt, &tl);
 			if (blk && len <= BLK) {
 				if (!array_blk)
 					array_blk = malloc(BLK);
